@@ -56,6 +56,12 @@ CONFIGS = {
         peers=[{"name": "peer1.other.example", "realm": R2}, {"name": "peer2.verif.example"}],
         apps=[{"tag": "A", "id": 4, "peers": ["peer1.other.example"]},
               {"tag": "B", "id": 16777251, "peers": ["peer1.other.example"], "realms": [RX]}]),
+    # what a peer named in its capabilities exchange does not restrict where its requests go: peer 1 names one of
+    # its two applications only, peer 2 is a relay (names the relay id alone)
+    "peers_advertise_subset_or_relay": dict(
+        peers=[{"name": "peer1.verif.example", "cer_auth": [4]}, {"name": "peer2.verif.example", "cer_auth": [0xffffffff]}],
+        apps=[{"tag": "A", "id": 4, "peers": ["peer1.verif.example", "peer2.verif.example"]},
+              {"tag": "C", "id": 16777251, "peers": ["peer1.verif.example", "peer2.verif.example"]}]),
     "raising_and_threading_apps": dict(
         peers=[{"name": "peer1.verif.example"}, {"name": "peer2.verif.example"}],
         apps=[{"tag": "A", "id": 4, "peers": ["peer1.verif.example"], "behaviour": "raise"},
@@ -99,7 +105,8 @@ class Scenario:
         for i, pc in enumerate(self.cfg["peers"]):
             p = h.inbound(ip=f"10.1.0.{i + 1}", port=50000 + i)
             h.settle()
-            p.send(M.cer(pc["name"], pc.get("realm", R1), auth=auth, acct=acct, hbh=1, e2e=1))
+            p.send(M.cer(pc["name"], pc.get("realm", R1), auth=pc.get("cer_auth", auth),
+                         acct=[] if "cer_auth" in pc else acct, hbh=1, e2e=1))
             h.settle()
             fr = p.drain()
             if not fr or fr[-1].result_code != 2001:
